@@ -1,5 +1,6 @@
 import BFL.Proofs.LifecycleHist
 import BFL.Proofs.LifecycleComm
+import BFL.Proofs.LifecycleFair
 /-
 C09 — filter lifecycle: ordered epochs, honoured commands, guaranteed termination.
 
@@ -182,6 +183,168 @@ theorem reset_leads_to_init (as : List Act)
   subst hpc'
   exact ⟨hist, by simp [exec, step, thr]⟩
 
+/-! ## Liveness under fairness, for every command placement
+
+`reset_leads_to_init` lets the thread run alone.  Here the controller may issue `run`, `reset`,
+`wait` and the condition variable may wake spuriously at **every** point of the continuation; the
+assumptions are fairness (the thread gets 14 moves), a run condition that holds, and that nobody
+asks for the opposite (`Benign`: no `teardown`, no `reboot`). -/
+
+/-- A requested reset — or a `run` request reaching a thread that is on its way to the wait, in
+it, or past it — is honoured by a new initialisation within 14 thread moves of **any** benign
+continuation: the history gains an `Init`. -/
+theorem reset_leads_to_init_fair (as rest : List Act)
+    (hrun : (runAll Cfg.current as).run = true) (htd : (runAll Cfg.current as).teardown = false)
+    (hmid : (runAll Cfg.current as).mid = false)
+    (h1 : (runAll Cfg.current as).pc ≠ PC.preFinal) (h2 : (runAll Cfg.current as).pc ≠ PC.done)
+    (hpend : (runAll Cfg.current as).reset = true ∨ (runAll Cfg.current as).pc = PC.top ∨
+      (runAll Cfg.current as).pc = PC.zero ∨ (runAll Cfg.current as).pc = PC.preWait ∨
+      (runAll Cfg.current as).pc = PC.waiting ∨ (runAll Cfg.current as).pc = PC.preInit ∨
+      (runAll Cfg.current as).pc = PC.outD)
+    (hben : ∀ a ∈ rest, Benign a) (hfair : 14 ≤ moves rest) :
+    ∃ l, (runAll Cfg.current (as ++ rest)).hist = l ++ (runAll Cfg.current as).hist ∧ Ev.init ∈ l := by
+  have hR : Resetting (runAll Cfg.current as) := ⟨nolost_all _ as, hrun, htd, hmid, h1, h2, hpend⟩
+  have hv : vInit (runAll Cfg.current as).pc + 1 ≤ moves rest := by
+    have : vInit (runAll Cfg.current as).pc ≤ 13 := by
+      generalize (runAll Cfg.current as).pc = pc
+      cases pc <;> simp [vInit]
+    omega
+  rw [runAll, exec_append]
+  exact fair_init_from rest _ hR hben hv
+
+/-- `run()` starts the filter: once `run_` is set (no teardown, no `reboot()` in progress) and the
+thread has not yet initialised its epoch — it is before the wait, at its entry with the mutex
+held, inside it, or just past it — every benign fair continuation contains the `Init`. -/
+theorem run_leads_to_init_fair (as rest : List Act)
+    (hrun : (runAll Cfg.current as).run = true) (htd : (runAll Cfg.current as).teardown = false)
+    (hmid : (runAll Cfg.current as).mid = false)
+    (hpc : (runAll Cfg.current as).pc = PC.top ∨ (runAll Cfg.current as).pc = PC.zero ∨
+      (runAll Cfg.current as).pc = PC.preWait ∨ (runAll Cfg.current as).pc = PC.blocking ∨
+      (runAll Cfg.current as).pc = PC.waiting ∨ (runAll Cfg.current as).pc = PC.preInit)
+    (hben : ∀ a ∈ rest, Benign a) (hfair : 14 ≤ moves rest) :
+    ∃ l, (runAll Cfg.current (as ++ rest)).hist = l ++ (runAll Cfg.current as).hist ∧ Ev.init ∈ l := by
+  have hL := nolost_all Cfg.current as
+  have hb : (runAll Cfg.current as).pc ≠ PC.blocking := by
+    intro hpcb
+    have := (hL rfl rfl).2 hpcb
+    rw [hrun] at this
+    exact absurd this.1 (by simp)
+  apply reset_leads_to_init_fair as rest hrun htd hmid _ _ _ hben hfair
+  · rcases hpc with h | h | h | h | h | h <;> simp [h]
+  · rcases hpc with h | h | h | h | h | h <;> simp [h]
+  · rcases hpc with h | h | h | h | h | h
+    · exact Or.inr (Or.inl h)
+    · exact Or.inr (Or.inr (Or.inl h))
+    · exact Or.inr (Or.inr (Or.inr (Or.inl h)))
+    · exact absurd h hb
+    · exact Or.inr (Or.inr (Or.inr (Or.inr (Or.inl h))))
+    · exact Or.inr (Or.inr (Or.inr (Or.inr (Or.inr (Or.inl h)))))
+
+/-- The hypotheses are needed.  (1) run condition: with the same pending reset and a condition
+that turns false, the thread ends and no `Init` follows the reset.  (2) `run_`: after a
+`reboot()` (which clears `run_`) the thread parks and no `Init` follows however long it is
+scheduled.  (3) no teardown: a teardown ends the thread without a new epoch. -/
+def resetInStep : List Act := [.c .run] ++ List.replicate 9 (.t true) ++ [.c .reset]
+
+theorem fair_init_needs_condition_counterexample :
+    (runAll Cfg.current resetInStep).reset = true ∧ (runAll Cfg.current resetInStep).run = true ∧
+    (runAll Cfg.current resetInStep).pc = PC.inStep ∧
+    (runAll Cfg.current (resetInStep ++ List.replicate 14 (.t false))).pc = PC.done ∧
+    Ev.init ∉ (runAll Cfg.current (resetInStep ++ List.replicate 14 (.t false))).hist.takeWhile
+      (fun e => decide (e ≠ Ev.cmdReset)) := by decide
+
+theorem fair_init_needs_run_counterexample :
+    (runAll Cfg.current ([.c .run] ++ List.replicate 9 (.t true) ++ [.c .reboot, .fin] ++
+        List.replicate 16 (.t true))).pc = PC.waiting ∧
+    Ev.init ∉ (runAll Cfg.current ([.c .run] ++ List.replicate 9 (.t true) ++ [.c .reboot, .fin] ++
+        List.replicate 16 (.t true))).hist.takeWhile (fun e => decide (e ≠ Ev.cmdReboot)) := by decide
+
+theorem fair_init_needs_no_teardown_counterexample :
+    (runAll Cfg.current (resetInStep ++ [.c .teardown] ++ List.replicate 14 (.t true))).pc = PC.done ∧
+    Ev.init ∉ (runAll Cfg.current (resetInStep ++ [.c .teardown] ++ List.replicate 14 (.t true))).hist.takeWhile
+      (fun e => decide (e ≠ Ev.cmdReset)) := by decide
+
+/-- non-vacuity of `reset_leads_to_init_fair`: the reset of `resetInStep` followed by a
+continuation in which the controller keeps issuing `run`, `reset`, `wait` between the thread's
+moves is benign, fair, and the `Init` is there -/
+def benignTail : List Act :=
+  [.t true, .c .reset, .t true, .t true, .c .run, .spur, .t true, .c .wait, .t true, .t true, .c .reset,
+   .t true, .t true, .t true, .t true, .t true, .t true, .t true, .t true]
+
+example : (∀ a ∈ benignTail, Benign a) ∧ 14 ≤ moves benignTail ∧
+    Ev.init ∈ (runAll Cfg.current (resetInStep ++ benignTail)).hist.takeWhile (fun e => decide (e ≠ Ev.cmdRun)) := by
+  decide
+
+/-! ## Exactly when a step can still start after a request -/
+
+/-- `teardown_at_most_one_step` is tight only for a thread that has already read `!teardown_`
+for its next step: if teardown is set while the thread is anywhere else (inside
+`initialization_step()`, inside `run_condition()`, in a step, parked, between epochs …), **no**
+step starts any more, whatever the schedule. -/
+theorem teardown_no_step_unless_committed (cfg : Cfg) (as rest : List Act)
+    (htd : (runAll cfg as).teardown = true)
+    (h1 : (runAll cfg as).pc ≠ PC.inC) (h2 : (runAll cfg as).pc ≠ PC.aboutStep) :
+    countSteps (runAll cfg (as ++ rest)).hist = countSteps (runAll cfg as).hist := by
+  rw [runAll, exec_append]
+  exact tdout_exec cfg rest _ ⟨htd, h1, h2⟩
+
+/-- … and the exception is real: teardown requested between the read of `!teardown_` and the
+step (pc `inC`) is followed by exactly one more step. -/
+def teardownCommitted : List Act := [.c .run] ++ List.replicate 7 (.t true) ++ [.c .teardown]
+
+theorem teardown_committed_step_counterexample :
+    (runAll Cfg.current teardownCommitted).teardown = true ∧ (runAll Cfg.current teardownCommitted).pc = PC.inC ∧
+    countSteps (runAll Cfg.current teardownCommitted).hist = 0 ∧
+    countSteps (runAll Cfg.current (teardownCommitted ++ List.replicate 15 (.t true))).hist = 1 := by decide
+
+/-- The same for reset / reboot: with `reset_` set and the thread not yet committed to a step
+(it has not read `!reset_` for it: pc ≠ `aboutStep`), or with the thread outside the stepping
+loop, **no** step starts before the next `Init`, whatever the schedule. -/
+theorem reset_no_step_unless_committed (cfg : Cfg) (as rest : List Act)
+    (h1 : (runAll cfg as).pc ≠ PC.aboutStep)
+    (h2 : (runAll cfg as).reset = true ∨ OutsideLoop (runAll cfg as).pc = true) :
+    ∃ l, (runAll cfg (as ++ rest)).hist = l ++ (runAll cfg as).hist ∧ (Ev.init ∉ l → countSteps l = 0) := by
+  rw [runAll, exec_append]
+  exact rsout_exec cfg rest _ ⟨h1, h2⟩
+
+/-! ## The mutex is exclusive; teardown ends a filter that reports "not running" -/
+
+/-- Mutual exclusion on `mtx_run_`: the controller is between the two stores of `reboot()` only while
+the filtering thread does not hold the mutex (so the wait predicate is never evaluated on the
+intermediate state `reset_ = true, run_` not yet cleared). -/
+theorem mutex_exclusive (cfg : Cfg) (as : List Act) :
+    ¬ ((runAll cfg as).mid = true ∧ (runAll cfg as).pc = PC.blocking) :=
+  fun h => excl_all cfg as h.1 h.2
+
+/-- the wait is passed (entry test or re-evaluation after a wake-up) only while no `reboot()` is in progress -/
+theorem wait_not_passed_during_reboot (s s' : St) (c : Bool) (hpc : s.pc = PC.preWait ∨ s.pc = PC.waiting)
+    (h : thr s c = some s') : s.mid = false := by
+  obtain ⟨pc, run, reset, td, stp, woken, mid, joined, hist⟩ := s
+  rcases hpc with hp | hp <;> simp only at hp <;> subst hp <;> cases mid <;> simp_all [thr]
+
+/-- Teardown requested at **any** point of a live thread — parked, inside `initialization_step()`
+(seed C09-r4-2's placement), inside a step, inside `run_condition()` … — and `run()` not called
+again: after 15 fair turns the thread has ended **and `is_running()` is false**. -/
+theorem teardown_ends_not_running (as rest : List Act) (htd : (runAll Cfg.current as).teardown = true)
+    (hlive : (runAll Cfg.current as).pc ≠ PC.done) (hnorun : ∀ a ∈ rest, a ≠ Act.c Cmd.run)
+    (hfair : 15 ≤ turns Cfg.current (runAll Cfg.current as) rest) :
+    (runAll Cfg.current (as ++ rest)).pc = PC.done ∧ (runAll Cfg.current (as ++ rest)).isRunning = false := by
+  have hd := (teardown_terminates as rest htd hfair).1
+  refine ⟨hd, ?_⟩
+  have h0 : EndOff (runAll Cfg.current as) := fun h => absurd h hlive
+  have := endoff_exec Cfg.current rest _ hnorun h0
+  rw [runAll, exec_append] at hd ⊢
+  exact this hd
+
+/-- non-vacuity (and the exception is real): teardown inside `initialization_step()` with `run_` set, 15
+turns → ended, not running; a `run()` issued after the end makes `is_running()` true again -/
+def teardownInInit : List Act := [.c .run, .t true, .t true, .t true, .t true, .c .teardown]
+
+example : (runAll Cfg.current teardownInInit).pc = PC.inInit ∧ (runAll Cfg.current teardownInInit).run = true ∧
+    (runAll Cfg.current (teardownInInit ++ List.replicate 15 (.t true))).pc = PC.done ∧
+    (runAll Cfg.current (teardownInInit ++ List.replicate 15 (.t true))).isRunning = false ∧
+    (runAll Cfg.current (teardownInInit ++ List.replicate 15 (.t true) ++ [.c .run])).isRunning = true := by decide
+
 /-! ## After the join -/
 
 /-- `wait()` returns only after the thread has ended; from then on, whatever is done, no
@@ -359,5 +522,29 @@ example : ∃ later earlier, (runAll Cfg.current demoReboot).hist = later ++ Ev.
     runMon rbδ Rb.a later = Rb.ok ∧ countSteps later = 2 :=
   ⟨(runAll Cfg.current demoReboot).hist.takeWhile (fun e => decide (e ≠ Ev.cmdReboot)),
    ((runAll Cfg.current demoReboot).hist.dropWhile (fun e => decide (e ≠ Ev.cmdReboot))).tail, by decide⟩
+
+/-- the exception is real: a reset that lands after the read of `!reset_` (pc `aboutStep`) is
+followed by one step before the new `Init` -/
+theorem reset_committed_step_counterexample :
+    (runAll Cfg.current ([.c .run] ++ List.replicate 8 (.t true))).pc = PC.aboutStep ∧
+    countSteps ((runAll Cfg.current demoReset).hist.takeWhile (fun e => decide (e ≠ Ev.cmdReset))) = 1 := by decide
+
+/-! ## A consumer of the step number: `SIS::filtering_step()` -/
+
+/-- `SIS::filtering_step()` predicts unless `step_number() == 0` (`sisPredicts`).  Along every
+schedule the steps that skip the prediction are exactly the first steps after an initialisation:
+the step that starts with number `k` does not predict iff the Init/Step event before it is an
+`Init` (with `step_number_in_step`: `k` is what `step_number()` returns while the step runs). -/
+theorem sis_prediction_skipped_exactly_after_init (cfg : Cfg) (as : List Act) (k : Nat)
+    (later earlier : List Ev) (h : (runAll cfg as).hist = later ++ Ev.stepStart k :: earlier) :
+    sisPredicts k = false ↔ (workEvents earlier).head? = some Ev.init := by
+  rw [epoch_shape_pred cfg as k later earlier h]
+  by_cases hk : k = 0
+  · subst hk; simp [sisPredicts]
+  · simp [sisPredicts, hk]
+
+/-- non-vacuity: in `demoRun` the first step does not predict, the second does -/
+example : (runAll Cfg.current demoRun).hist.filter isStep = [Ev.stepStart 1, Ev.stepStart 0] ∧
+    sisPredicts 0 = false ∧ sisPredicts 1 = true := by decide
 
 end BFL.Life
